@@ -51,6 +51,15 @@ func (o *Obligation) Query(withModel bool) string {
 		lits = append(lits, "str_empty")
 		b.WriteString("(assert (distinct " + strings.Join(lits, " ") + "))\n")
 	}
+	var globs []string
+	for _, l := range o.Decls.order {
+		if strings.HasPrefix(l, "(declare-const g.") || strings.HasPrefix(l, "(declare-const fn.") {
+			globs = append(globs, strings.Fields(l)[1])
+		}
+	}
+	if len(globs) > 1 {
+		b.WriteString("(assert (distinct " + strings.Join(globs, " ") + "))\n")
+	}
 	for _, a := range o.Assume {
 		b.WriteString("(assert " + a + ")\n")
 	}
